@@ -1,6 +1,12 @@
 """C06 — sun angles agree with an independent solar ephemeris (Astronomical-Almanac low-precision formulas)."""
 import datetime as dt
+import json
 import math
+import os
+import subprocess
+import sys
+import warnings
+from concurrent.futures import ThreadPoolExecutor
 
 import numpy as np
 
@@ -19,6 +25,10 @@ RULE = ("instants 1950-2050 uniform plus solstices/equinoxes/year boundaries x l
         "(independent Python, own GMST) within 0.03 deg / 0.0015 AU, mutual consistency 1e-9, sub-solar point and antipode; "
         "arrays: six unrelated instants, and clusters of six instants spanning 0 s ... 40 d in sorted / reversed / shuffled / "
         "out-and-back order, with scalar, 1-d and 2-d coordinates, every element against the Almanac; "
+        "call orders: fresh child interpreters whose FIRST sun query (each of the six functions in turn) passes a date-only "
+        "value (datetime.date, datetime64[D,W,M,Y], arrays of them: midnight UTC of the day / first day), a coarse "
+        "datetime64[h,m,s], an ordinary instant or an array, followed by 8-13 instants in every representation (datetime, "
+        "aware, datetime64 ns..h, 1-element arrays) at random places, every answer of every step against the Almanac; "
         "distinct = (instant, lon, lat)")
 ASSUMPTIONS = ["Almanac low-precision formulas transcribed from memory (DESIGN appendix D); agreement measured 0.009 deg",
                "azimuth differences are weighted by cos(altitude) (azimuth is undefined at the zenith)",
@@ -224,6 +234,166 @@ def oracle(ctx):
         lons = [lon] + [ctx.rng.uniform(-360.0, 360.0) for _ in range(m - 1)]
         lats = [lat] + [ctx.rng.uniform(-90.0, 90.0) for _ in range(m - 1)]
         check_arrays(ctx, ts, lons, lats, kind, astronomy)
+    # fresh interpreters: what the process asks FIRST (a date-only value, a coarse unit, an array ...) must not matter
+    order_oracle(ctx)
+
+
+# ---------------------------------------------------------------- call orders in a fresh interpreter
+SUN_FNS = ("sun_ra_dec", "sun_zenith_angle", "cos_zen", "get_alt_az", "sun_ecliptic_longitude", "sun_earth_distance_correction")
+NO_PLACE = ("sun_ra_dec", "sun_ecliptic_longitude", "sun_earth_distance_correction")
+
+CHILD = r"""
+import json, sys
+spec = json.load(sys.stdin)
+sys.path.insert(0, spec["harness"])
+import lib                      # puts the code under test (PV_REPO) first on sys.path
+from props import c06
+out = [c06.eval_step(step) for step in spec["order"]]
+import pyorbital
+print(json.dumps({"pyorbital": pyorbital.__file__, "out": out}))
+"""
+
+
+def eval_step(step):
+    """One step [kind, iso, offset_min, lon, lat, functions]: the sun functions, called in the step's order, for the time
+    representation `kind` of the instant (c12.make_value) at one place.  {function: [bit patterns] | 'EXC ...'}."""
+    from pyorbital import astronomy
+    kind, iso, off, lon, lat, fns = step
+    val = c12.make_value(kind, dt.datetime.fromisoformat(iso), off)
+    out = {}
+    for f in fns:
+        try:
+            with warnings.catch_warnings():
+                warnings.simplefilter("ignore")      # numpy warns that datetime64 has no time zone (it converts to UTC)
+                res = getattr(astronomy, f)(val) if f in NO_PLACE else getattr(astronomy, f)(val, lon, lat)
+            parts = res if isinstance(res, tuple) else (res,)
+            out[f] = [lib.f2h(float(np.asarray(p, dtype=np.float64).ravel()[0])) for p in parts]
+        except Exception as e:  # noqa
+            out[f] = "EXC %s: %s" % (type(e).__name__, str(e)[:200])
+    return out
+
+
+def run_order(order):
+    """Evaluate the steps in this order in a FRESH interpreter (its first sun query is the first function of the first step)."""
+    env = dict(os.environ, PV_REPO=lib.REPO)
+    spec = {"harness": os.path.dirname(os.path.dirname(os.path.abspath(__file__))), "order": order}
+    p = subprocess.run([sys.executable, "-c", CHILD], input=json.dumps(spec).encode(), env=env, stdout=subprocess.PIPE,
+                       stderr=subprocess.PIPE, timeout=300)
+    if p.returncode != 0:
+        raise RuntimeError("child interpreter failed: " + p.stderr.decode(errors="replace")[-800:])
+    return json.loads(p.stdout.decode().strip().split("\n")[-1])["out"]
+
+
+def judge_step(step, vals):
+    """The clauses of the statement for one step's answers; the instant is the one the representation denotes (a date-only
+    value is midnight UTC of that day, a coarse datetime64 the start of its unit).  [(function, observed, required)]."""
+    kind, iso, off, lon, lat, fns = step
+    t = c12.canon(kind, dt.datetime.fromisoformat(iso))
+    ref = almanac(t, lon, lat)
+    zen_ref = math.pi / 2 - ref["alt"]
+    label = "for %s (%s), lon %.4f, lat %.4f" % (t.isoformat(), kind, lon, lat)
+    bad = []
+    got = {}
+    for f in fns:
+        v = vals.get(f)
+        if not isinstance(v, list):
+            bad.append((f, v, "a value " + label))
+        else:
+            got[f] = [lib.h2f(x) for x in v]
+
+    def clause(f, what, d, tol, observed, required):
+        if not d <= tol:      # a NaN fails
+            bad.append((f, observed, "%s %s within %s %s" % (what, required, tol_txt(what), label)))
+
+    def tol_txt(what):
+        return "0.0015 AU" if what == "distance factor" else "%.2f deg" % TOL_DEG
+    if "sun_ra_dec" in got:
+        ra, dec = got["sun_ra_dec"]
+        clause("sun_ra_dec", "right ascension", angdiff(ra, ref["ra"]), TOL, math.degrees(ra), "%.6f deg" % math.degrees(ref["ra"]))
+        clause("sun_ra_dec", "declination", angdiff(dec, ref["dec"]), TOL, math.degrees(dec), "%.6f deg" % math.degrees(ref["dec"]))
+    if "get_alt_az" in got:
+        alt, az = got["get_alt_az"]
+        clause("get_alt_az", "altitude", angdiff(alt, ref["alt"]), TOL, math.degrees(alt), "%.6f deg" % math.degrees(ref["alt"]))
+        clause("get_alt_az", "azimuth (weighted by cos altitude)", angdiff(az, ref["az"]) * max(math.cos(ref["alt"]), 0.0), TOL,
+               math.degrees(az), "%.6f deg" % math.degrees(ref["az"]))
+    if "sun_zenith_angle" in got:
+        sza = got["sun_zenith_angle"][0]
+        clause("sun_zenith_angle", "zenith angle", abs(math.radians(sza) - zen_ref), TOL, sza, "%.6f deg" % math.degrees(zen_ref))
+    if "cos_zen" in got:
+        cz = got["cos_zen"][0]
+        clause("cos_zen", "cosine of the zenith angle", abs(cz - math.cos(zen_ref)), TOL, cz, "%.9f" % math.cos(zen_ref))
+    if "sun_earth_distance_correction" in got:
+        dist = got["sun_earth_distance_correction"][0]
+        clause("sun_earth_distance_correction", "distance factor", abs(dist - ref["R"]), 0.0015, dist, "%.6f AU" % ref["R"])
+    if "sun_zenith_angle" in got and "get_alt_az" in got:
+        sza, alt = got["sun_zenith_angle"][0], got["get_alt_az"][0]
+        if not (abs(sza - (90.0 - math.degrees(alt))) <= 1e-9 or abs(math.cos(math.radians(sza)) - math.sin(alt)) <= 1e-15):
+            bad.append(("sun_zenith_angle", sza, "90 deg - altitude = %r to 1e-9 %s" % (90.0 - math.degrees(alt), label)))
+    if "sun_zenith_angle" in got and "cos_zen" in got:
+        sza, cz = got["sun_zenith_angle"][0], got["cos_zen"][0]
+        if not abs(sza - math.degrees(math.acos(max(-1.0, min(1.0, cz))))) <= 1e-9:
+            bad.append(("sun_zenith_angle", sza, "arccos of cos_zen = %r to 1e-9 %s" % (
+                math.degrees(math.acos(max(-1.0, min(1.0, cz)))), label)))
+    return bad
+
+
+def judge_order(order):
+    """[(step index, function, observed, required)] for every answer of the sequence that breaks a clause."""
+    bad = []
+    for i, (step, vals) in enumerate(zip(order, run_order(order))):
+        for f, v, req in judge_step(step, vals):
+            bad.append((i, f, v, req))
+    return bad
+
+
+def gen_orders(ctx):
+    """Call orders for fresh interpreters: the time representation (and the function) of the process' FIRST sun query must
+    not matter for that answer or for any later one."""
+    r = ctx.rng
+    lo, hi = dt.datetime(1950, 1, 8), dt.datetime(2050, 1, 1)   # the week / month / year holding the instant starts inside 1950-2050
+    inst = [c for c in gen(ctx, 400) if lo <= c[0] < hi]
+    later = c12.INSTANT_KINDS + c12.ARRAY_KINDS + c12.COARSE_KINDS
+
+    def step(kind, first_fn=None):
+        t, lon, lat = r.choice(inst)
+        fns = list(SUN_FNS)
+        r.shuffle(fns)
+        if first_fn is not None:
+            fns.remove(first_fn)
+            fns.insert(0, first_fn)
+        return [kind, t.isoformat(), r.choice(c12.OFFSETS), lon, lat, fns]
+
+    def tail(n):
+        kinds = list(later)
+        r.shuffle(kinds)
+        return [step(k) for k in kinds[:n]]
+    orders = []
+    k = r.randrange(len(SUN_FNS))
+    for rep in range(ctx.size(1, 6)):
+        for first in c12.DATE_KINDS + ("arr_D", "arr_date"):       # date-only value first, then ordinary instants
+            k += 1
+            orders.append(("date_first:" + first, [step(first, SUN_FNS[k % len(SUN_FNS)])] + tail(r.randint(8, 13))))
+        for first in c12.COARSE_KINDS + ("dt64s",):
+            k += 1
+            orders.append(("coarse_first:" + first, [step(first, SUN_FNS[k % len(SUN_FNS)])] + tail(8) + [step(r.choice(c12.DATE_KINDS))]))
+        orders.append(("instants_first", [step(x) for x in c12.INSTANT_KINDS + c12.DATE_KINDS + c12.ARRAY_KINDS]))
+        orders.append(("arrays_first", [step(x) for x in c12.ARRAY_KINDS[:3] + c12.DATE_KINDS + c12.INSTANT_KINDS]))
+        orders.append(("random", [step(r.choice(later + c12.DATE_KINDS)) for _ in range(12)]))
+    return orders
+
+
+def order_oracle(ctx):
+    orders = gen_orders(ctx)
+    with ThreadPoolExecutor(max_workers=4) as ex:
+        results = list(ex.map(lambda o: judge_order(o[1]), orders))
+    for (name, order), bad in zip(orders, results):
+        ctx.bump("call_order", name.split(":")[0])
+        ctx.count("eval_oracle_order", sum(len(s[5]) for s in order))
+        ctx.distinct(("order", name, order[0][1], order[1][1]))
+        for i, f, v, req in bad[:3]:
+            ctx.violation("call_order", {"order": order, "family": name, "index": i, "function": f}, v,
+                          req + " (step %d, %s, of a fresh interpreter whose first sun query was %s(%s))" % (
+                              i, order[i][0], order[0][5][0], order[0][0]), site="astronomy." + f)
 
 
 def _coords(kind, xs):
@@ -282,6 +452,11 @@ def match_known(entry, v):
 def replay(ctx, case):
     from pyorbital import astronomy
     inp = case.get("input", case)
+    if "order" in inp:
+        bad = judge_order(inp["order"])
+        for b in bad[:8]:
+            print("call order: step %d %s %s -> %r, required %s" % (b[0], inp["order"][b[0]][0], b[1], b[2], b[3]))
+        return 1 if bad else 0
     if "utcs" in inp:
         n = check_arrays(ctx, [dt.datetime.fromisoformat(x) for x in inp["utcs"]], inp["lons"], inp["lats"], inp["kind"], astronomy)
         print("array case", inp["kind"], "violations", n)
